@@ -520,6 +520,17 @@ func runTrie(k *kernel.K) {
 			each(mutant{"keylen", rv.name + " continuation bytes to the end", over[:1+k.Range(1, 256, "contbytes")]})
 		}
 	}
+	if c.held != nil {
+		// the intact encoding of the other harvested node goes through the decoder as well (a damaged
+		// input mostly fails before it gets as far as a value)
+		if !other.raw {
+			guard(func() { _, _ = node.Decode(stdbytes.NewReader(other.enc)) })
+		}
+		if diff := c.held(); diff != "" {
+			c.report("roundtrip", "decoded-node-changed-by-later-decodes:node.Decode", "%s: the node decoded from the intact encoding no longer equals the original after %d further decodes: %s; encoding %s", h.what, c.mutants, diff, hx(h.enc))
+		}
+		k.Probe("held-decoded-node-rechecked")
+	}
 	kinds := make([]string, 0, len(stats))
 	for kd := range stats {
 		kinds = append(kinds, kd)
@@ -618,6 +629,10 @@ func (c *ctx) roundTrip(h harvested) {
 			c.report("roundtrip", "decoded-node-differs:node.Decode", "%s: node.Decode(Encode(n)) differs: %s; encoding %s", h.what, diff, hx(h.enc))
 		} else {
 			k.Event("roundtrip-ok", "node.Decode")
+			// whoever decodes a node keeps it (a proof trie is built from decoded nodes): it must still be
+			// that node after the decoder has been used for other inputs
+			held, orig := dn, h.n
+			c.held = func() string { return nodeDiff(orig, held, true) }
 		}
 	}
 	var cn codec.EncodedNode
